@@ -35,6 +35,7 @@ var Families = map[string]func(t *testing.T, seed int64, steps int) *Cluster{
 	"staleprefix": famStalePrefix,
 	"voterestart": famVoteRestart,
 	"stalerepl":   famStaleRepl,
+	"demoteelect": famDemoteElect,
 }
 
 // famSnapMember: snapshots racing with membership changes and a slow FSM, then restarts from the snapshot.
